@@ -234,9 +234,14 @@ class MPS(DNAS):
         """
         # tracing forces eval() on the seed: restore the training status found
         training_status = [(m, m.training) for m in self.seed.modules()]
+        # ...and the shape propagation runs a forward pass (in eval mode), which re-samples the
+        # selection coefficients used by the cost: keep the current ones
+        sampled = [(m, m.theta_alpha) for m in self.seed.modules() if hasattr(m, 'theta_alpha')]
         mod, _, _ = convert(self.seed, self._input_example, 'export')
         for m, status in training_status:
             m.training = status
+        for m, theta_alpha in sampled:
+            m.theta_alpha = theta_alpha
         return mod
 
     def summary(self) -> Dict[str, Dict[str, Any]]:
